@@ -14,11 +14,13 @@ TN = "TreeNodeWithPreviousValue."
 SM = "StorageManager."
 PROPS = {
     "C13": {
-        "verus": [("tree_node", [TN + "determine_node_to_get", TN + "get_appropriate_tree_node_from_storage"])],
+        "verus": [("tree_node", [TN + "determine_node_to_get", TN + "get_appropriate_tree_node_from_storage"]),
+                  ("azks_audit", ["Azks.get_root_hash_safe", "Azks.get_root_hash", "Directory.get_epoch_hash", "Azks.get_latest_epoch", "NodeLabel.root", "NodeLabel.new"])],
         "search": True,
         "always_search": True,
         "scope": "partial: the as-of read of a node record never returns a node newer than the epoch asked for (so no answer stitches a newer node into an older epoch), returns the latest "
-                 "node whenever it is not newer, and otherwise only NotFound. Interleavings, the change poller and the cache are not decided.",
+                 "node whenever it is not newer, and otherwise only NotFound; get_epoch_hash answers (e, h) with e the latest epoch of the ONE epoch record it read and h the root hash of the "
+                 "root node as of that very e (get_root_hash_safe refuses any epoch other than the record's). Interleavings, the change poller and the cache are not decided.",
         "trusted": ["T6 async functions are verified under single-task sequential semantics; a storage read is a function of (manager, key) during one call",
                     "StorageManager::get is external (assumed to return the stored record)"],
         "assumed": ["residual seen by reading: get_child_node maps NotFound to 'no child', so a reader overtaken during a request can still assemble a non-verifying proof (outside this contract)"],
